@@ -90,7 +90,7 @@ PROPERTIES = {
     },
     "C05": {
         "level": "proof",
-        "verus_units": ["fromfloat@*"],
+        "verus_units": ["fromfloat@*", "floatglue"],
         "kani": ["float::check_to_f32", "float::check_to_f64", "float::check_kind_f32", "float::check_kind_f64",
                  "tofixed::check_tfh_i32", "tofixed::check_tfh_i64", "tofixed::cover_tfh",
                  "floatglue::wrapping_is_overflowing_value",
@@ -130,7 +130,7 @@ PROPERTIES = {
     },
     "C11": {
         "level": "proof",
-        "verus_units": ["arith_widen", "arith128", "widediv", "nofrac", "fracops", "round@*", "transc", "leaves", "cmp@*", "fromfixed@*", "fromfloat@*", "wrapping", "traitfwd@*", "intconv"],
+        "verus_units": ["arith_widen", "arith128", "widediv", "nofrac", "fracops", "round@*", "transc", "leaves", "cmp@*", "fromfixed@*", "fromfloat@*", "wrapping", "traitfwd@*", "intconv", "floatglue"],
         "kani": [{"harness": h, "classes": ["panic"]} for h in
                  _mods("arith8", ["i4f4", "i0f8", "u4f4", "u0f8"], FORMS) + ["arith8::abs_forms_i8"] + TFH
                  + ["float::check_to_f32", "float::check_to_f64", "float::check_kind_f32", "float::check_kind_f64"]
